@@ -506,9 +506,11 @@ func isUpdatingIndexedFields(index CollectionIndex, oldDoc, newDoc *client.Docum
 		// only if the field hasn't been set when first creating the document
 		// AND the field hasn't been set on the update.
 		switch {
-		case getOldValErr != nil && getNewValErr != nil:
+		case getNewValErr != nil:
+			// The field is not part of the update (the document given to Update may carry
+			// the changed fields only): its value stays what it is.
 			continue
-		case getOldValErr != nil && getNewValErr == nil:
+		case getOldValErr != nil:
 			return true
 		case !oldVal.NormalValue().Equal(newVal.NormalValue()):
 			return true
